@@ -49,13 +49,28 @@ FIXTURES = {
                ("Definition", 0, "_children"): [1, 2], ("Definition", 1, "_children"): [3]},
         refs={0: 0, 1: 1, 2: 2, 3: 2},      # m:MID, snk:LEAF in TOP ; u0:LEAF in MID
         top=0),
+    # a wire-only cell one level down: FEED has two ports and a net but NO children (not a leaf: it owns a cable)
+    # TOP(m:MID) ; MID(f:FEED, l:LEAF) ; ports MID.I, FEED.A, FEED.B, LEAF.I ; nets TOP.t, MID.w_in, MID.w_out, FEED.w
+    "wire-only": dict(
+        live=dict(Netlist=1, Library=1, Definition=4, Port=4, Cable=4, Wire=4, Instance=4, InnerPin=4, OuterPin=4),
+        shape={("Netlist", 0, "_libraries"): [0], ("Library", 0, "_definitions"): [0, 1, 2, 3],
+               ("Definition", 1, "_ports"): [0], ("Port", 0, "_pins"): [0],                      # MID.I
+               ("Definition", 2, "_ports"): [1, 2], ("Port", 1, "_pins"): [1], ("Port", 2, "_pins"): [2],   # FEED.A, FEED.B
+               ("Definition", 3, "_ports"): [3], ("Port", 3, "_pins"): [3],                      # LEAF.I
+               ("Definition", 0, "_cables"): [0], ("Cable", 0, "_wires"): [0],                   # TOP.t
+               ("Definition", 1, "_cables"): [1, 2], ("Cable", 1, "_wires"): [1], ("Cable", 2, "_wires"): [2],   # MID.w_in, MID.w_out
+               ("Definition", 2, "_cables"): [3], ("Cable", 3, "_wires"): [3],                   # FEED.w
+               ("Definition", 0, "_children"): [1], ("Definition", 1, "_children"): [2, 3]},
+        refs={0: 0, 1: 1, 2: 2, 3: 3},
+        top=0),
 }
 
 
 def build(fx_name, pfx="s", atoms=("a", "b", "c", "d"), u=None):
     fx = FIXTURES[fx_name]
     if u is None:
-        u = Universe(fx["live"], {}, 3, keys=(".NAME",), atoms=atoms)
+        caps = {(P, lst): len(kids) for (P, p_, lst), kids in fx["shape"].items() if len(kids) > 3}
+        u = Universe(fx["live"], {}, 3, list_caps=caps, keys=(".NAME",), atoms=atoms)
     h = Heap.symbolic(u, pfx).apply_shape(fx["shape"])
     # references, reference sets, top instance, pin maps: concrete
     for i in range(u.live["Instance"]):
